@@ -166,7 +166,14 @@ def r1(ctx, chk):
         for y in groups[k]:
             chain = _anc(f.node, y)
             fors = [a for a in chain if isinstance(a, ast.For)]
-            var_loops = [a for a in fors if isinstance(a.iter, ast.Call) and isinstance(a.iter.func, ast.Name) and a.iter.func.id == "date_strings"]
+            # the loop over the spellings of the string: the one whose variable is what the applicability test is asked about
+            def _is_spelling_loop(a):
+                if isinstance(a.iter, ast.Call) and isinstance(a.iter.func, ast.Name) and a.iter.func.id == "date_strings":
+                    return True
+                tv = ast.unparse(a.target)
+                return any(isinstance(c, ast.Call) and ast.unparse(c.func).endswith("_is_applicable_locale") and len(c.args) == 2
+                           and ast.unparse(c.args[1]) == tv for c in ast.walk(a)) and ast.unparse(a.target) != ast.unparse(y.value.value)
+            var_loops = [a for a in fors if _is_spelling_loop(a)]
             if not var_loops:
                 continue
             n_var += 1
